@@ -31,6 +31,7 @@ type fieldSpec struct {
 	tags     map[string]string // source -> key
 	required map[string]bool
 	deflt    string
+	defltS   []string // slice fields: the default's elements (tag text is the JSON array)
 }
 
 var kinds = []reflect.Kind{reflect.Bool, reflect.Int, reflect.Int8, reflect.Int16, reflect.Int32, reflect.Int64, reflect.Uint, reflect.Uint8, reflect.Uint16, reflect.Uint32, reflect.Uint64, reflect.Float32, reflect.Float64, reflect.String}
@@ -265,7 +266,9 @@ func reference(fields []fieldSpec, rs reqSpec) (map[string]string, bool) {
 					return nil, true
 				}
 			}
-			if f.deflt != "" {
+			if f.slice && len(f.defltS) > 0 {
+				texts, found = f.defltS, true
+			} else if f.deflt != "" {
 				texts, found = []string{f.deflt}, true
 			}
 		}
@@ -379,6 +382,24 @@ func genFields(r *mon.Rand) []fieldSpec {
 		}
 		if r.Chance(5) && !f.slice {
 			f.deflt = genValue(r, f.kind, 9)
+		}
+		if r.Chance(4) && f.slice && f.kind != reflect.String && f.kind != reflect.Uint8 {
+			// a slice default is written as a JSON array ([]uint8 is base64 in JSON: left out)
+			for k := 1 + r.Intn(2); k > 0; k-- {
+				f.defltS = append(f.defltS, genValue(r, f.kind, 9))
+			}
+			conv := func(s string) string {
+				if f.kind == reflect.Bool {
+					b, _ := strconv.ParseBool(s)
+					return strconv.FormatBool(b)
+				}
+				return s
+			}
+			var js []string
+			for _, x := range f.defltS {
+				js = append(js, conv(x))
+			}
+			f.deflt = "[" + strings.Join(js, ",") + "]"
 		}
 		fields = append(fields, f)
 	}
